@@ -113,12 +113,16 @@ EncRes(r) == IF r.k = "vals" THEN [k |-> "vals", v |-> [i \in 1..Len(r.v) |-> En
 (* lattices per position *)
 S(t) == VS(t)
 StartQ == <<VI(I(1)), VI(I(0)), VI(I(-1)), VI(Sub(MaxInt, One8)), VI(MaxInt), VI(MinInt), VI(Add(MinInt, One8)),
-            VF(FL(FALSE, 1, 0)), VF(FL(FALSE, 1, -1)), VF(FL(FALSE, 1, 53)), VF(FLb(FALSE, M53, 10)), VF(FInf(FALSE)), VNil>>
+            VF(FL(FALSE, 1, 0)), VF(FL(FALSE, 1, -1)), VF(FL(FALSE, 1, 53)), VF(FLb(FALSE, M53, 10)), VF(FInf(FALSE)), VNil,
+            (* integer starts just below a float limit of magnitude >= 2^53 (where float64(int) rounds): the comparison of the
+               integer control variable with a float limit must be exact *)
+            VI(Sub(P2(53), I(2))), VI(Neg(Sub(P2(53), I(2)))), VI(Sub(P2(62), I(2)))>>
 StartT == StartQ \o <<VI(I(3)), VI(P2(53)), VI(Add(P2(53), One8)), VI(Sub(MaxInt, I(2))), VI(Add(MinInt, I(2))), VF(FL(TRUE, 1, 63)),
             VF(FL(FALSE, 1, 63)), VF(FZero(TRUE)), VF(FInf(TRUE)), VF(FNaN), VF(FLb(FALSE, M53, 971)),
             S(<<"1">>), S(<<"x">>), VOther("tbl")>>
 LimitQ == <<VI(I(3)), VI(I(0)), VI(I(-3)), VI(MaxInt), VI(MinInt), VF(FL(FALSE, 5, -1)), VF(FL(TRUE, 5, -1)),
-            VF(FL(FALSE, 1, 63)), VF(FL(TRUE, 1, 64)), VF(FInf(FALSE)), VF(FNaN), S(<<"x">>)>>
+            VF(FL(FALSE, 1, 63)), VF(FL(TRUE, 1, 64)), VF(FInf(FALSE)), VF(FNaN), S(<<"x">>),
+            VF(FL(FALSE, 1, 53)), VF(FL(TRUE, 1, 53)), VF(FL(FALSE, 1, 62))>>
 LimitT == LimitQ \o <<VI(Sub(MaxInt, One8)), VI(Add(MinInt, One8)), VI(I(1)), VI(Add(P2(53), One8)), VI(Add(P2(53), I(3))),
             VF(FL(TRUE, 1, 63)), VF(FL(FALSE, 1, 64)), VF(FInf(TRUE)), VF(FLb(FALSE, M53, 10)), VF(FLb(TRUE, Add(P2(52), One8), 11)),
             VF(FLb(FALSE, M53, 971)), VF(FL(FALSE, 1, 53)), VF(FLb(FALSE, Add(P2(52), One8), 1)), VF(FZero(TRUE)), VF(FL(FALSE, 3, 0)),
